@@ -61,6 +61,12 @@ def gen_cases(rng, tier):
             cs, done = _enumerate({"kind": "soft", "callers": four, "cancel": cancel, "bursts": []}, 30000)
             ENUM_COMPLETE[f"3+1 callers two keys cancel={cancel}"] = [len(cs), done]
             cases += cs
+        # four callers of ONE key, the first execution raises while a caller has joined it; late callers start and join a second one
+        fail4 = [{"key": 0, "yields": 1, "out": "raise"}, {"key": 0, "yields": 0, "out": "ret"}, {"key": 0, "yields": 2, "out": "ret"}, {"key": 0, "yields": 0, "out": "ret"}]
+        for bursts in ([], [3], [4], [5]):
+            cs, done = _enumerate({"kind": "cache", "callers": fail4, "cancel": None, "bursts": bursts}, 30000)
+            ENUM_COMPLETE[f"4 callers one key, first execution raises bursts={bursts}"] = [len(cs), done]
+            cases += cs
         rais = [{"key": 0, "yields": 1, "out": "raise"}, {"key": 0, "yields": 0, "out": "ret"}, {"key": 1, "yields": 1, "out": "ret"}]
         for cancel in (None, 1):
             cs, done = _enumerate({"kind": "early", "callers": rais, "cancel": cancel, "bursts": []}, 30000)
